@@ -153,7 +153,7 @@ def join_harness(w, algo, variant, nl, nr, iters):
 
 def join_tasks(tier, role):
     ts = []
-    n = (2, 2, 1) if tier == 'quick' else (2, 2, 2)
+    n = (2, 2, 1)
     for algo in ('hash', 'sort_merge'):
         for variant in ('Inner', 'Left', 'Outer'):
             ts.append(Task('join_%s_%s' % (algo, variant.lower()), 'join_harness',
